@@ -17,7 +17,7 @@ LEVEL = "exploration"
 ENGINE = "E6"
 TECHNIQUE = "exhaustive enumeration of the command-line option space (every subset of options, every order of option groups, 0/1/2 macro files in both orders) x rule/input pairs; the CLI subprocess is compared with the in-process API for the corresponding MatchConfig"
 RULE = ("rule/input pairs: {found once, not found, several matches, captures, needs two macro files in a specific order, "
-        "failing rule (undefined macro with definitions), failing input (missing file), rule depending on a call target, listing whose addresses restart (identical consecutive address lines), input the disassembler rejects} x {-s assembly, -b binary} x "
+        "failing rule (undefined macro with definitions), failing input (missing file), rule depending on a call target, listing whose addresses restart (identical consecutive address lines), input the disassembler rejects, listing whose matched addresses cross a hex digit-count boundary}; -b runs with objdump absent from PATH x {-s assembly, -b binary} x "
         "EVERY subset of {--all-matches, --return_only_address, --debug, --info} x --macros with 0 / 1 / 2 files in both "
         "orders x EVERY order of the option groups on the command line (quick: all orders for 2 pairs, 3 rotations for the "
         "rest); plus the invalid command lines (no -p; neither -s nor -b; both). Each is one `python -m jasm.main` "
@@ -38,6 +38,11 @@ BIN_SRC = ".text\n mov %rax,%rbx\n push %rax\n push %rax\n mov %rbx,%rax\n ret\n
 DUP_LISTING_TEXT = ("\nx.o:     file format elf64-x86-64\n\n\nDisassembly of section .text:\n\n0000000000000000 <f>:\n"
                     "   0:\tc3                   \tret\n\nDisassembly of section .text.g:\n\n0000000000000000 <g>:\n"
                     "   0:\tc3                   \tret\n   1:\tc3                   \tret\n")
+# addresses crossing a hex digit-count boundary (ff8 -> 1000): string order differs from listing order
+WIDTH_LISTING_TEXT = ("\nx.o:     file format elf64-x86-64\n\n\nDisassembly of section .text:\n\n0000000000000ff8 <f>:\n"
+                      "     ff8:\tc3                   \tret\n     ff9:\t90                   \tnop\n     ffc:\tc3                   \tret\n"
+                      "    1000:\tc3                   \tret\n    1004:\tc3                   \tret\n   10000:\tc3                   \tret\n")
+WIDTH_BIN_SRC = ".text\n.org 0xff8\n ret\n nop\n.org 0xffc\n ret\n.org 0x1000\n ret\n.org 0x1004\n ret\n.org 0x10000\n ret\n"
 DUP_BIN_SRC = ".text\n ret\n.section .text.g,\"ax\"\n ret\n ret\n"
 M1 = {"macros": [{"name": "@outer", "pattern": [{"$or": ["@inner", "ret"]}]}]}
 M2 = {"macros": [{"name": "@inner", "pattern": "push"}]}
@@ -55,6 +60,7 @@ PAIRS = {
     "fail_input": dict(rule=make_rule_doc(["ret"]), macros=0, missing_input=True),
     "call_target": dict(rule=make_rule_doc([{"call": ["4010"]}]), macros=0),         # depends on an operand a stale valid_addr_range would rewrite
     "dup_addr": dict(rule=make_rule_doc(["ret"]), macros=0, input="dup"),            # identical consecutive 'Matched address' lines
+    "width_cross": dict(rule=make_rule_doc(["ret"]), macros=0, input="width"),       # listing order != string order of the addresses
     "not_object": dict(rule=make_rule_doc(["ret"]), macros=0, input="notobj"),       # -b: the disassembler rejects the file
 }
 FLAGS = ["--all-matches", "--return_only_address", "--debug", "--info"]
@@ -87,6 +93,9 @@ def all_cases(tier):
                             cases.append((pn, kind, mo, tuple(fl), tuple(perm), tuple(loglvl)))
     for bad in ("no_p", "no_input", "both_inputs", "unknown_flag", "p_without_value"):
         cases.append(("found_once", "s", (), (), (), ("INVALID", bad)))
+    for pn in ("found_once", "several", "not_found"):
+        for fl in ((), ("--all-matches",), ("--all-matches", "--return_only_address")):
+            cases.append((pn, "b", (), fl, (0, 1) + tuple(range(2, 2 + len(fl))), ("ENV", "no_objdump")))
     return cases
 
 
@@ -103,7 +112,7 @@ def files(h):
     d = h.path("c20")
     os.makedirs(d, exist_ok=True)
     f = {"s": os.path.join(d, "in.s"), "b": os.path.join(d, "in.o"), "dup_s": os.path.join(d, "dup.s"), "dup_b": os.path.join(d, "dup.o"),
-         "notobj_s": os.path.join(d, "notobj.txt"), "notobj_b": os.path.join(d, "notobj.txt"), "m1": os.path.join(d, "m1.yaml"), "m2": os.path.join(d, "m2.yaml"),
+         "width_s": os.path.join(d, "width.s"), "width_b": os.path.join(d, "width.o"), "notobj_s": os.path.join(d, "notobj.txt"), "notobj_b": os.path.join(d, "notobj.txt"), "m1": os.path.join(d, "m1.yaml"), "m2": os.path.join(d, "m2.yaml"),
          "m2b": os.path.join(d, "m2b.yaml"), "cwd": os.path.join(d, "cwd"), "missing": os.path.join(d, "nosuch.s")}
     open(f["s"], "w").write(fmt_listing(LISTING))
     src = os.path.join(d, "in_src.s")
@@ -113,6 +122,10 @@ def files(h):
     src2 = os.path.join(d, "dup_src.s")
     open(src2, "w").write(DUP_BIN_SRC)
     subprocess.run(["as", "--64", src2, "-o", f["dup_b"]], check=True)
+    open(f["width_s"], "w").write(WIDTH_LISTING_TEXT)
+    src3 = os.path.join(d, "width_src.s")
+    open(src3, "w").write(WIDTH_BIN_SRC)
+    subprocess.run(["as", "--64", src3, "-o", f["width_b"]], check=True)
     open(f["notobj_s"], "w").write("this is neither a listing nor an object file\n")
     for k, v in (("m1", M1), ("m2", M2), ("m2b", M2B)):
         open(f[k], "w").write(yaml.safe_dump(v, sort_keys=False))
@@ -171,6 +184,11 @@ def cli(f, pn, kind, mo, fl, perm, loglvl):
         argv += list(loglvl)
     env = dict(os.environ)
     env["PYTHONPATH"] = os.path.join(REPO, "src")
+    if loglvl and loglvl[0] == "ENV":
+        empty = os.path.join(f["cwd"], "emptybin")
+        os.makedirs(empty, exist_ok=True)
+        env["PATH"] = empty                       # no objdump anywhere on PATH
+        argv = [a for a in argv if a != "ENV" and a != "no_objdump"]
     r = subprocess.run([sys.executable, "-m", "jasm.main"] + argv, capture_output=True, text=True, cwd=f["cwd"], env=env)
     text = r.stdout + "\n" + r.stderr
     addrs = re.findall(r"Matched address: (.*)$", text, flags=re.M)
@@ -193,6 +211,13 @@ def run_shard(shard, tier, h, res, known):
             res.nontrivial += 1
             if rc == 0:
                 res.fail({**case, "clause": "invalid-accepted", "expected": "non-zero exit", "observed": f"exit {rc}"}, known)
+            continue
+        if loglvl and loglvl[0] == "ENV":
+            # the disassembler is missing: the library raises (FileNotFoundError), so the command must fail too
+            res.nontrivial += 1
+            if rc == 0:
+                res.fail({**case, "clause": "failure-exit-0", "expected": "non-zero exit (objdump is not on PATH)",
+                          "observed": f"exit 0 found={found} addrs={addrs}"}, known)
             continue
         want = api(h, f, pn, kind, mo, fl)
         if "raise" in want:
@@ -230,7 +255,7 @@ def controls(h):
 def replay(case, h):
     f = files(h)
     rc, found, notfound, addrs, argv = cli(f, case["pair"], case["kind"], tuple(case["macros"]), tuple(case["flags"]), tuple(case["perm"]), tuple(case["loglvl"]))
-    if case["loglvl"] and case["loglvl"][0] == "INVALID":
+    if case["loglvl"] and case["loglvl"][0] in ("INVALID", "ENV"):
         return rc == 0, f"exit {rc}"
     want = api(h, f, case["pair"], case["kind"], tuple(case["macros"]), tuple(case["flags"]))
     if "raise" in want:
